@@ -405,21 +405,23 @@ def body(args, pid, P, seed, scratch, t_start):
     wd.start()
     results = {}
     compile_errors = []
-    pkgs = []
+    groups = []
     for i in insts:
-        if i.pkg not in pkgs:
-            pkgs.append(i.pkg)
+        key = (i.pkg, tuple(sorted(i.features)))
+        if key not in groups:
+            groups.append(key)
     kani_wall = 0.0
     unwind_notes = []
     unwindsets = {}
-    for pkg in pkgs:
-        pin = [i for i in insts if i.pkg == pkg]
+    for (pkg, feats) in groups:
+        pin = [i for i in insts if i.pkg == pkg and tuple(sorted(i.features)) == feats]
+        tag = pkg + ("-" + "-".join(f.replace("/", "_") for f in feats) if feats else "")
         # longest first so that the tail of the schedule is short
         pin.sort(key=lambda i: -i.cost)
         uws, unotes = discover_unwindset(ws, scratch, pkg, pin)
         unwind_notes.extend(unotes)
         unwindsets[pkg] = uws
-        rc, to, logf, tdir, dt = run_kani(ws, scratch, pkg, pin, pkg, unwindset=uws)
+        rc, to, logf, tdir, dt = run_kani(ws, scratch, pkg, pin, tag, unwindset=uws)
         kani_wall += dt
         res, cerr = collect_results(tdir, pin, logf)
         if uws:
@@ -427,7 +429,7 @@ def body(args, pid, P, seed, scratch, t_start):
             again = [i for i in pin if res[i.name]["unwind_failed"]]
             if again:
                 unwind_notes.append("re-ran without per-loop bounds: " + ", ".join(i.name for i in again))
-                rc, to, logf, tdir, dt = run_kani(ws, scratch, pkg, again, pkg + "-nounwindset")
+                rc, to, logf, tdir, dt = run_kani(ws, scratch, pkg, again, tag + "-nounwindset")
                 kani_wall += dt
                 res2, _ = collect_results(tdir, again, logf)
                 res.update(res2)
@@ -441,13 +443,25 @@ def body(args, pid, P, seed, scratch, t_start):
                     res[i.name]["reason"] = "overall time limit of the run"
         results.update(res)
         if args.keep:
-            shutil.copy(logf, os.path.join(VERIF, "last-kani-%s-%s.log" % (pid, pkg)))
+            shutil.copy(logf, os.path.join(VERIF, "last-kani-%s-%s.log" % (pid, tag)))
     wd.stop = True
 
     # ---- classify
     discharged, inconclusive, failed = [], [], []
     for i in insts:
         r = results[i.name]
+        if i.expect_fail:
+            # characterisation instance: the failure IS the expected answer
+            if r["verdict"] == "failed" and r["failed"] and all(re.search(i.expect_fail, c["desc"]) for c in r["failed"]):
+                r["verdict"] = "success"
+                r["reason"] = "expected failure observed (characterisation): " + r["failed"][0]["desc"]
+                r["failed"] = []
+                discharged.append(i)
+            else:
+                r["reason"] = "characterisation instance did not fail as expected (%s)" % r["verdict"]
+                r["verdict"] = "inconclusive"
+                inconclusive.append(i)
+            continue
         if r["verdict"] == "success":
             miss = required_covers_ok(i, r)
             if miss:
